@@ -318,6 +318,8 @@ func (m *MLDv2MulticastListenerReportMessage) DecodeFromBytes(data []byte, df go
 	// https://tools.ietf.org/html/rfc3810#section-5.2.1
 	m.NumberOfMulticastAddressRecords = binary.BigEndian.Uint16(data[2:4])
 
+	// the records are appended below: do not keep those of an earlier decode
+	m.MulticastAddressRecords = nil
 	begin := 4
 	for i := uint16(0); i < m.NumberOfMulticastAddressRecords; i++ {
 		mar := MLDv2MulticastAddressRecord{}
